@@ -64,6 +64,7 @@ type fnSpec struct {
 	fatalNil     bool              // the function returns a pointer and reports by t.Fatalf: failing the test is returning none (the caller, a tbFatal function, stops there)
 	assertBoolFields map[string]string // "x.(*T)" -> Boolean field of x's representation: whether x's dynamic type is *T
 	statusViews  bool              // *status.Status and its protobuf are one struct: s.Proto(), status.FromProto(p), proto.Clone(p).(*T) are copies; s.Code(), s.Message() read fields; proto.Equal compares field by field
+	natListTypes map[string]bool   // element types of slices whose elements the spec represents by numbers (functional options: each constructor is an oracle with a "#n" result)
 	inlineClosures bool            // local procedures (function literals without results or returns, bound to a name) are expanded where they are called (see expandClosures)
 	extConsts    map[string]string // constants of package constants the function names -> their value (checked against constants/const.go)
 }
@@ -743,6 +744,48 @@ var chkErrSpecs = []fnSpec{
 	},
 }
 
+
+// the registry of network instances of a RIB (r.niRIB, guarded by r.nrMu)
+var ribRegistrySpecs = []fnSpec{
+	{
+		file: "rib/rib.go", goName: "NetworkInstanceRIB", recvType: "*RIB", callAs: "r.NetworkInstanceRIB§", leanName: "networkInstanceRIB",
+		params: []param{{goName: "s", goType: "string", lean: "s", kd: kStr}},
+		goRets: "*RIBHolder, bool", rets: []string{"ptr:HolderG", "bool"},
+		state:  []stateField{{goExpr: "r.niRIB", lean: "niRIB", kd: kind{k: "map", s: "HolderG", t: []kind{kStr}}}},
+		holdLocks: []string{"r.nrMu"},
+	},
+	{
+		file: "rib/rib.go", goName: "KnownNetworkInstances", recvType: "*RIB", callAs: "r.KnownNetworkInstances§", leanName: "knownNetworkInstances",
+		params: []param{},
+		goRets: "[]string", rets: []string{"list:String"},
+		state:  []stateField{{goExpr: "r.niRIB", lean: "niRIB", kd: kind{k: "map", s: "HolderG", t: []kind{kStr}}}},
+		holdLocks: []string{"r.nrMu"},
+	},
+	{
+		file: "rib/rib.go", goName: "AddNetworkInstance", recvType: "*RIB", callAs: "r.AddNetworkInstance§", leanName: "addNetworkInstance",
+		params: []param{{goName: "name", goType: "string", lean: "name", kd: kStr}},
+		goRets: "error", rets: []string{"err"},
+		state:  []stateField{{goExpr: "r.niRIB", lean: "niRIB", kd: kind{k: "map", s: "HolderG", t: []kind{kStr}}}},
+		oracleParams: []param{
+			{goName: "§ribCheck", lean: "ribCheck", kd: kBool},
+			{goName: "§noFwd", lean: "noFwd", kd: kBool},
+			{goName: "§hook", lean: "hook", kd: kPtr("Unit")},
+			{goName: "§checkFn", lean: "checkFn", kd: kPtr("Unit")},
+			{goName: "§newHolder", lean: "newHolder", kd: kind{k: "fun", t: []kind{kPtrNN("HolderG"), kStr, {k: "list", s: "Nat", elemNN: true}}}},
+		},
+		// a holder option is represented by a number: 1 = the RIB's check function, 2 = no forward references
+		oracles: map[string]oracle{
+			"RIBHolderCheckFn":         {results: []string{"#1"}},
+			"DisableForwardReferences": {results: []string{"#2"}},
+			"NewRIBHolder":             {results: []string{"§newHolder@0,1"}},
+		},
+		subst:        map[string]string{"r.ribCheck": "§ribCheck", "r.disableForwardReferences": "§noFwd", "r.postChangeHook": "§hook", "r.checkFn": "§checkFn"},
+		natListTypes: map[string]bool{"ribHolderOpt": true},
+		typeMap:      map[string]string{"RIBHolder": "HolderG"},
+		holdLocks:    []string{"r.nrMu"},
+	},
+}
+
 var ribSpecs = []fnSpec{
 	{
 		file: "rib/rib.go", goName: "getPending", recvType: "*RIB", callAs: "r.getPending", leanName: "getPending",
@@ -1170,4 +1213,5 @@ func init() {
 	specs = append(specs, ribGetRIBSpec)
 	specs = append(specs, ribRefCountSpecs...)
 	specs = append(specs, chkErrSpecs...)
+	specs = append(specs, ribRegistrySpecs...)
 }
